@@ -3,15 +3,15 @@ INVARIANT Global
 CHECK_DEADLOCK FALSE
 CONSTANTS
   CHUNK = 1000
-  DENSE = 48
-  NSCALE = 24
-  EDGEW = 8
+  DENSE = 64
+  NSCALE = 32
+  EDGEW = 16
   SEDGEW = 2
-  POLEW = 64
-  EQW = 64
-  MERW = 16
+  POLEW = 128
+  EQW = 128
+  MERW = 32
   LESTRIDE = 1
-  SWEEPLAT = 90
-  SWEEPLON = 60
+  SWEEPLAT = 120
+  SWEEPLON = 100
   NRAND = 0
-  NLONS = 1
+  NLONS = 2
